@@ -163,6 +163,15 @@ def receive_config(prog: Program) -> Config:
     for fn, kind, construct, _why in EXEMPT_OPS:
         prog.func(fn)
         cfg.exempt_ops.add((fn, kind, norm(construct)))
+        # the same construct with renamed locals, or moved into a helper of the same class, keeps its exemption (the reason is about the class's state)
+        from engine.report import shape
+        fi_ = prog.func(fn)
+        scope_ = fi_.cls.qualname if fi_.cls is not None else fi_.module.name
+        if not hasattr(cfg, "exempt_op_shapes"):
+            cfg.exempt_op_shapes = set()
+        sh_ = shape(construct)
+        # a shape made of placeholders only (`_[-1]`, `1 << _`) is too generic for the whole class: it stays tied to its function
+        cfg.exempt_op_shapes.add((scope_ if ("self." in sh_ or "(" in sh_) else fn, kind, sh_))
     for fn, var, _why in EXEMPT_UNBOUND:
         prog.func(fn)
         cfg.exempt_unbound.add((fn, var))
